@@ -14,8 +14,8 @@ from .. import simenv
 from ..core import Lab, Violation, exc_violation
 from . import inject_reg as R
 
-RELS = ["byname", "prefix", "both", "absent", "wrongtype", "subclass", "falsy", "preset", "init", "private", "generic", "comp_ref", "wrongtype_prefix", "callable", "shared"]
-CTOR_RELS = ["byname", "prefix", "absent", "wrongtype", "comp_earlier", "comp_later", "private", "falsy", "callable", "subclass", "wrongtype_prefix"]
+RELS = ["byname", "prefix", "both", "absent", "wrongtype", "subclass", "falsy", "preset", "init", "private", "generic", "comp_ref", "wrongtype_prefix", "callable", "shared", "wrongtype_both"]
+CTOR_RELS = ["byname", "prefix", "absent", "wrongtype", "comp_earlier", "comp_later", "private", "falsy", "callable", "subclass", "wrongtype_prefix", "wrongtype_both"]
 TYPES = ["Inj", "Other", "int", "str", "tuple", "float"]
 FALSY = {"int": 0, "str": "", "tuple": (), "float": 0.0, "bool": False}
 GENERICS = ["List[int]", "list[int]", "Tuple[int, int]", "Dict[str, int]"]
@@ -103,6 +103,11 @@ class Plan:
                 self._put(f"{o}_{n}", fresh(ann, s + 50 + len(self.robot_attrs)))
         if rel == "wrongtype":
             self._put(n, wrong(ann, s))
+        if rel == "wrongtype_both":
+            # the plain name holds an object of the wrong type, the prefixed name a good one: the plain name decides
+            self._put(n, wrong(ann, s))
+            for o in owners:
+                self._put(f"{o}_{n}", fresh(ann, s + 70 + len(self.robot_attrs)))
         if rel == "wrongtype_prefix":
             for o in owners:
                 self._put(f"{o}_{n}", wrong(ann, s + len(self.robot_attrs)))
@@ -308,8 +313,8 @@ def write_mode(mode):
 
 
 _I = st.integers
-_ATTR = st.tuples(_I(0, 14), _I(0, 5), _I(0, 3), st.booleans())
-_CTOR = st.tuples(_I(0, 10), _I(0, 5))
+_ATTR = st.tuples(_I(0, 15), _I(0, 5), _I(0, 3), st.booleans())
+_CTOR = st.tuples(_I(0, 11), _I(0, 5))
 _CLASS = st.tuples(st.lists(_ATTR, max_size=4), st.lists(_CTOR, max_size=2), st.lists(_ATTR, max_size=1), st.booleans())
 _CASE = st.tuples(st.lists(_CLASS, min_size=1, max_size=3), st.lists(_I(0, 2), min_size=1, max_size=4), _I(0, 4),
                   st.one_of(st.none(), st.lists(_ATTR, max_size=3)), _I(0, 3))
@@ -475,7 +480,7 @@ class C08(Lab):
                 err = e
             rels = {r["rel"] for r in plan.requests}
             classes = sorted("rel:" + r for r in rels) + (["mode"] if case.get("mode") else []) + (["expect-error"] if want_error else ["expect-ok"])
-            nontrivial = bool(rels & {"prefix", "both", "comp_ref", "falsy", "absent", "wrongtype", "wrongtype_prefix", "private", "shared", "callable"})
+            nontrivial = bool(rels & {"prefix", "both", "comp_ref", "falsy", "absent", "wrongtype", "wrongtype_prefix", "wrongtype_both", "private", "shared", "callable"})
             if want_error:
                 if err is None:
                     bad = [r for r in plan.requests if (r["owner"], r["attr"]) not in exp and (r["owner"], r["attr"]) not in plan.exp_ctor]
